@@ -211,8 +211,13 @@ func (g *vGraph) materialise() *vBuilt {
 	b := &vBuilt{fset: new(token.FileSet), hasher: typeutil.MakeHasher()}
 	b.items = make([]interface{}, g.N)
 	var vars []*types.Var
+	blank := vParam("blank_args", 0) != 0
 	for _, k := range g.given {
-		vars = append(vars, types.NewVar(token.NoPos, nil, nodeName(k), vType(k)))
+		name := nodeName(k)
+		if blank {
+			name = "_"
+		}
+		vars = append(vars, types.NewVar(token.NoPos, nil, name, vType(k)))
 	}
 	b.given = types.NewTuple(vars...)
 	top := &ProviderSet{PkgPath: "example.com/h", InjectorArgs: &InjectorArgs{Name: "inject", Tuple: b.given}}
